@@ -66,3 +66,11 @@ def c03_colon_first_segment(ctx):
     for i in range(len(p)):
         alts.append(all_of([p[i] == ":"] + [p[j] != "/" for j in range(i)]))
     return any_of(alts)
+
+
+def c19_build_authority_bracket(ctx):
+    """F18: URL.build(authority=<text with a '['>): a bracketed host that is not an IP literal loses its brackets"""
+    a = ctx.inputs.get("a")
+    if a is None or not ctx.notes.get("build_authority"):
+        return False
+    return "[" in a
